@@ -396,7 +396,10 @@ def _special_paths(sim, plan, path, open_pair, stream_for, expect_unchanged, exp
                     grouped[-1][1].append(rec)
                 else:
                     grouped.append((kind, [rec]))
-            sink.insert_stream_without_locking(iter([(k, iter(r)) for k, r in grouped]), srcr._format, is_resume)
+            # is_resume=False on purpose: with True the sink checks for missing texts right
+            # away, which presumes a complete first round (the smart server's flow); the
+            # rounds here are arbitrary slices and completeness is judged at commit time
+            sink.insert_stream_without_locking(iter([(k, iter(r)) for k, r in grouped]), srcr._format, False)
 
         def reopen_target():
             nonlocal tgt, sink
